@@ -176,6 +176,65 @@ class SxDict(dict):
         for k, v in dict(*a, **kw).items():
             self[k] = v
 
+    # the remaining mutators must go through the same bookkeeping as __setitem__ (dict's C implementations would
+    # bypass it and the shadow would no longer behave like a Python dict)
+    def setdefault(self, k, default=None):
+        if k in self:
+            return self[k]
+        self[k] = default
+        return default
+
+    _MISSING = object()
+
+    def pop(self, k, default=_MISSING):
+        if k in self:
+            v = self[k]
+            del self[k]
+            return v
+        if default is SxDict._MISSING:
+            raise KeyError(k)
+        return default
+
+    def __delitem__(self, k):
+        i = self._find(k) if (self._sym or self._symkey(k)) else next((j for j, (kk, _) in enumerate(self._items) if kk == k), -1)
+        if i < 0:
+            raise KeyError(k)
+        kk, _ = self._items.pop(i)
+        for dk in list(dict.keys(self)):
+            if (isinstance(dk, _Opaque) and dk.k is kk) or (not isinstance(dk, _Opaque) and dk == kk):
+                dict.__delitem__(self, dk)
+                break
+
+    def popitem(self):
+        if not self._items:
+            raise KeyError('popitem(): dictionary is empty')
+        k, v = self._items[-1]
+        del self[k]
+        return k, v
+
+    def clear(self):
+        dict.clear(self)
+        self._items = []
+        self._sym = False
+
+    def copy(self):
+        c = SxDict()
+        for k, v in self._items:
+            c[k] = v
+        return c
+
+    def __eq__(self, other):
+        if isinstance(other, SxDict):
+            return self._items == other._items or dict(self._items) == dict(other._items) if not (self._sym or other._sym) else self._items == other._items
+        if isinstance(other, dict):
+            return not self._sym and dict(self._items) == other
+        return NotImplemented
+
+    __hash__ = None
+
+    def __repr__(self):
+        return 'SxDict(%r)' % (self._items,)
+
 
 class _SetState:
     sym_order = False
